@@ -19,10 +19,15 @@
   `Fixes` selects, repair by repair, between the code as it is (`Fixes.asIs`) and the repaired code
   (`Fixes.all`, findings/c15-*.diff):
     readSelect   readLoop:  `select { case client.in <- packet: case <-client.close: return }`        (F37)
-    writeCloses  writeLoop: closes `rwc` when it exits                                                 (F38a)
+    writeCloses  writeLoop: closes `rwc` when it exits                                                 (F38)
     onceNoBlock  setError:  the DISCONNECT is queued with a non-blocking send (inside errOnce.Do)       (F47)
-    connSelect   connectWithTimeOut: CONNACK(error) / AUTH are queued with `client.write` (select on close) (F48)
     nilPacket    connectWithTimeOut: a closed `in` is an error, not `ok = true`                        (F49)
+    connSelect   connectWithTimeOut: CONNACK(error) / AUTH are queued with `client.write` (select on close) —
+                 hardening shipped with the F49 patch; no stuck state of the as-is model is known to need it, because
+                 readLoop waits for `connected` after the first packet
+  (`Stop` tracking every connection — the second half of F38 — is the flag `SysCfg.stopAll` below.)
+  The model follows the tree including commits ad55f8a / d202e0a: on `client.close` writeLoop flushes a pending
+  CONNACK / DISCONNECT from `out` before it exits.
 
   Not modelled (see Properties/C15.lean): keep-alive read deadline (same path as a read error), `Client.Disconnect`
   API, persistence errors in `registerClient`, the write of a DISCONNECT taking effect on a half-closed TCP socket.
